@@ -63,7 +63,8 @@ def run(ck, ix, tier):
         for t in tests:
             p = edge_leads_only_to_raise(cfg, t, "t", also_forbid=wr)
             ck.check(p is None, "G-DOM", f"{q}|count-mismatch-raises", d.loc(cfg.nodes[t].ast), "a mismatch raises TypeError", "a parameter-count mismatch does not raise", witness(cfg, p))
-        ck.check("count_params = len(sig.parameters)" in norm(d.node) and "sig = signature(func)" in norm(d.node), "G-PROV", f"{q}|count-from-signature", d.loc(), "count taken from the function's signature", f"{q}: count_params is no longer len(signature(func).parameters)")
+        rs = defs_of(d).roots(ast.Name(id="count_params", ctx=ast.Load()))
+        ck.check("call:len" in rs and "call:signature" in rs and "func" in rs, "G-PROV", f"{q}|count-from-signature", d.loc(), "count taken from the function's signature", f"{q}: count_params is no longer the number of parameters of signature(func) (derives from {sorted(rs)})")
 
     # ------------------------------------------------------------ (b) classification loop
     f = ix.func(RH, "_parse_wrap_args")
@@ -257,5 +258,12 @@ def run(ck, ix, tier):
         ck.check(bool(calls), "G-DOM", "check.wrapper|dimension-check-present", g.loc(), "arguments are checked with Quantity.check(dim)", "the wrapper no longer checks arguments with .check(dim)")
         ck.check("return func(*args, **kwargs)" in norm(g.node), "G-PROV", "check.wrapper|original-arguments-forwarded", g.loc(), "the original arguments are forwarded unchanged", "check no longer forwards the original arguments")
     src = norm(f.node)
-    ck.check("ureg.get_dimensionality(dim) if dim is not None else None for dim in args" in src, "G-PROV", "check|declared-dimensions", f.loc(), "declared dimensions parsed, None kept", "check no longer parses the declared dimensions (keeping None)")
+    from .. import shape as _s4
+    okd = False
+    for lc in [x for x in walk_local(f.node) if isinstance(x, ast.ListComp) and norm(x.generators[0].iter) == "args" and isinstance(x.elt, ast.IfExp)]:
+        v = norm(lc.generators[0].target)
+        for p_, edge in _s4.atoms(lc.elt.test):
+            none_side, other_side = (lc.elt.body, lc.elt.orelse) if edge == "t" else (lc.elt.orelse, lc.elt.body)
+            okd = okd or (norm(p_) == f"{v} is None" and norm(none_side) == "None" and norm(other_side) == f"ureg.get_dimensionality({v})")
+    ck.check(okd, "G-PROV", "check|declared-dimensions", f.loc(), "declared dimensions parsed, None kept", "check no longer parses each declared dimension with ureg.get_dimensionality (keeping None)")
     return EXPLANATION
